@@ -6,6 +6,7 @@ import (
 	"go/parser"
 	"go/token"
 	"os"
+	"strings"
 	"testing"
 )
 
@@ -81,7 +82,11 @@ func TestDbgPaths(t *testing.T) {
 				}
 				continue
 			}
-			for _, p := range newNctx(decls).normPaths(fd) {
+			nc := newNctx(decls)
+			if w := os.Getenv("DBG_WITHOUT"); w != "" {
+				nc = nc.without(strings.Split(w, ",")...)
+			}
+			for _, p := range nc.normPaths(fd) {
 				fmt.Println(p.String())
 			}
 			continue
